@@ -175,6 +175,7 @@ namespace pika::detail {
         scoped_lock_if_not_stopped l(*this, cb);
         if (!l) return false;
 
+        PIKA_VERIF_POINT(74, cb);
         // Push callback onto callback list
         cb->add_this_callback(callbacks_);
         return true;
@@ -185,6 +186,7 @@ namespace pika::detail {
     {
         {
             std::lock_guard<stop_state> l(*this);
+            PIKA_VERIF_POINT(73, cb);
             if (cb->remove_this_callback()) { return; }
         }
         PIKA_VERIF_POINT(72, cb);
